@@ -24,6 +24,7 @@ import (
 	"sort"
 	"strings"
 	"sync"
+	"time"
 
 	"github.com/dolthub/go-mysql-server/sql"
 
@@ -57,6 +58,7 @@ type Case struct {
 	Blob     bool   `json:"blob"`
 	Rows     int    `json:"rows"`
 	Pending  bool   `json:"pending"` // revert: two commits so that one stays pending
+	CommitC  bool   `json:"commitc"` // revert_foreign: commit the conflicted state (merge state cleared, artifacts stay)
 }
 
 type MS struct {
@@ -96,6 +98,7 @@ type ObjObs struct {
 type Obs struct {
 	Objs        []ObjObs       `json:"objs"`
 	Stray       int            `json:"stray"`
+	StrayBase   int            `json:"stray_base"` // reads of the conflict artifacts' base/their root-ish outside the table's walker closure
 	StrayDetail []string       `json:"stray_detail"`
 	ScriptErrs  []string       `json:"script_errs"`
 	Kinds       map[string]int `json:"kinds"`
@@ -426,6 +429,19 @@ func decodeMsg(nm *numbering, data []byte) (*Msg, []field, error) {
 // ---------------------------------------------------------------------------
 // building the state
 // ---------------------------------------------------------------------------
+// Exec runs one statement, retrying when the manifest lock could not be taken in time (machine under load).
+func Exec(s *util.Session, q string) util.Result {
+	var r util.Result
+	for i := 0; i < 6; i++ {
+		r = s.Exec(q)
+		if !strings.Contains(r.Err, "lock timeout exceeded") {
+			return r
+		}
+		time.Sleep(time.Duration(200*(i+1)) * time.Millisecond)
+	}
+	return r
+}
+
 // Script is the SQL recipe of a case (shared with the C08 and C35 harnesses).
 func Script(c Case) []string { return script(c) }
 
@@ -496,6 +512,12 @@ func script(c Case) []string {
 		} else {
 			q = append(q, "call dolt_revert('HEAD~3')")
 		}
+	case "revert_foreign":
+		// revert, on main, a commit that is not in main's history: the conflict artifacts record that commit as base root-ish
+		q = append(q, "call dolt_revert('other~1')")
+		if c.CommitC {
+			q = append(q, "call dolt_commit('-am','keep the conflicts','--force')")
+		}
 	case "rebase":
 		q = append(q, "call dolt_checkout('other')", "call dolt_rebase('-i','main')")
 	case "rebase_conflict":
@@ -548,7 +570,7 @@ func Run(raw json.RawMessage) (any, error) {
 	}
 	obs := &Obs{Objs: []ObjObs{}, StrayDetail: []string{}, ScriptErrs: []string{}, Kinds: map[string]int{}}
 	for _, q := range script(c) {
-		if r := s.Exec(q); r.Err != "" {
+		if r := Exec(s, q); r.Err != "" {
 			if !tolerated(q, r.Err) {
 				obs.ScriptErrs = append(obs.ScriptErrs, q+": "+r.Err)
 			}
@@ -855,6 +877,18 @@ func Examine(ctx context.Context, cs chunks.ChunkStore, rec *RecCS, rdb *doltdb.
 				obs.StrayDetail = append(obs.StrayDetail, fmt.Sprintf("table %s: read of %s (%s) outside the walker closure", h, r, serial.GetFileID(ch.Data())))
 			}
 		}
+		// what reading dolt_conflicts_<t> additionally dereferences: the base and their root-ish of every conflict artifact
+		baseReads, berr := load(func() error { return readConflictRootIshes(ctx, rdb, h) })
+		if berr != nil {
+			obs.ScriptErrs = append(obs.ScriptErrs, "conflict root-ish loader: "+berr.Error())
+		}
+		for r := range baseReads {
+			if !cl.Has(r) {
+				obs.StrayBase++
+				ch, _ := cs.Get(ctx, r)
+				obs.StrayDetail = append(obs.StrayDetail, fmt.Sprintf("table %s: conflict root-ish read of %s (%s) outside the walker closure", h, r, serial.GetFileID(ch.Data())))
+			}
+		}
 	}
 	// commit closures: iterate completely
 	for i, h := range commits {
@@ -987,6 +1021,37 @@ func readWholeTable(ctx context.Context, sctx *sql.Context, rdb *doltdb.DoltDB, 
 		}
 	}
 	return nil
+}
+
+// readConflictRootIshes does what the dolt_conflicts_<t> reader does with every conflict artifact
+// (sqle/dtables/conflicts_tables_prolly.go loadTableMaps): load the root values named by the artifact's
+// base root-ish (JSON metadata in the value) and their root-ish (key).
+func readConflictRootIshes(ctx context.Context, rdb *doltdb.DoltDB, h hash.Hash) error {
+	vrw, ns := rdb.ValueReadWriter(), rdb.NodeStore()
+	tbl, err := durable.TableFromAddr(ctx, vrw, ns, h)
+	if err != nil {
+		return err
+	}
+	ai, err := tbl.GetArtifacts(ctx)
+	if err != nil {
+		return err
+	}
+	it, err := durable.ProllyMapFromArtifactIndex(ai).IterAllConflicts(ctx)
+	if err != nil {
+		return err
+	}
+	for {
+		ca, err := it.Next(ctx)
+		if err != nil {
+			return nil
+		}
+		if _, err := doltdb.LoadRootValueFromRootIshAddr(ctx, vrw, ns, ca.Metadata.BaseRootIsh); err != nil {
+			return err
+		}
+		if _, err := doltdb.LoadRootValueFromRootIshAddr(ctx, vrw, ns, ca.TheirRootIsh); err != nil {
+			return err
+		}
+	}
 }
 
 func readIndex(ctx context.Context, sctx *sql.Context, ns tree.NodeStore, idx durable.Index) error {
